@@ -14,7 +14,7 @@ from types import MappingProxyType
 
 from pyvc import fsmodel
 from pyvc.api import (Module, Interface, Method, Iface, Inst, Int, Nat, Pos, Bool, Str, Opt, OneOf, Const, Union,
-                      ListOf, FixedList, Any_, EnumOf, Custom, new_opaque)
+                      ListOf, FixedList, Any_, EnumOf, Custom, Dependent, new_opaque)
 from contracts.common import implies, iff
 
 from exactly_lib.execution.partial_execution import execution as partial_execution
@@ -154,7 +154,9 @@ def _m_happen(interp, args, kwargs):
 
 M.model(happen, _m_happen)
 
-M.contract(P_SDS + ':construct_at', params=dict(directory_root=Str), returns=SDS,
+M.contract(P_SDS + ':construct_at', params=dict(directory_root=Str),
+           # at call sites the result is the SandboxDs of that root (SandboxDs.__init__ is under contract)
+           returns=Dependent(lambda interp, name, env: interp.call(SandboxDs, [env['directory_root']], {})),
            setup=_declare_existing_dir('directory_root'),
            # a fresh sandbox root: an existing directory with nothing in it
            requires=lambda directory_root: is_dir(directory_root)
@@ -162,9 +164,9 @@ M.contract(P_SDS + ':construct_at', params=dict(directory_root=Str), returns=SDS
            event='construct_at',
            ensures={
                'creates-exactly-the-documented-directories-parents-first': (
-                   lambda directory_root, trace: trace == construct_at_events(directory_root), 'check'),
+                   lambda directory_root, trace: trace == construct_at_events(directory_root), 'check-only'),
                'the-directories-exist-afterwards': (
-                   lambda directory_root: all(is_dir(d) for d in layout_dirs(directory_root)), 'check'),
+                   lambda directory_root: all(is_dir(d) for d in layout_dirs(directory_root)), 'check-only'),
                '(call sites: these events happen)': (
                    lambda directory_root: happen(construct_at_events(directory_root)), 'effect'),
                'result-has-the-documented-layout': lambda directory_root, result: layout(result, directory_root),
@@ -447,7 +449,7 @@ M.contract(P_EXECUTOR + ':_PartialExecutor._construct_and_set_sds',
                'sandbox-is-built-in-the-new-empty-directory-of-the-resolver': lambda self, trace:
                [e[0] for e in trace][:3] == ['mkdtemp', 'resolve', 'construct_at']
                and trace[1][1] == trace[0][1] and trace[2][1]['directory_root'] == trace[1][2]
-               and trace[3:] == construct_at_events(trace[1][2]),
+               and events(trace, *FS_EVENTS)[1:] == construct_at_events(trace[1][2]),
                'has-the-documented-layout': lambda self, trace: layout(self._sds, trace[1][2]),
            },
            raises_only=())
@@ -476,3 +478,457 @@ M.contract(P_EXECUTOR + ':_PartialExecutor._setup_post_sds_environment',
                events(trace, *FS_EVENTS) == [trace[0]] + construct_at_events(trace[1][2]),
            },
            raises_only=())
+
+
+# ============================================================================ partial_execution/impl/atc_execution.py
+
+from exactly_lib.execution.partial_execution.impl.atc_execution import ActionToCheckExecutor
+from exactly_lib.test_case.phases.instruction_environment import InstructionEnvironmentForPostSdsStep, TmpFileStorage
+from exactly_lib.test_case.result.eh import ExitCodeOrHardError
+from exactly_lib.util.file_utils.std import StdOutputFiles
+from exactly_lib.util.process_execution.execution_elements import ProcessExecutionSettings
+
+EXIT_CODE_OR_HARD_ERROR = Inst(ExitCodeOrHardError, _tuple=[Opt(Int), Opt(Any_)])
+
+
+def _m_atc_execute(interp, self, args, kwargs):
+    """The action to check (environment): it is handed the output files, writes what it writes to them, and
+    then returns an exit code or a hard error -- or raises anything."""
+    from pyvc.interp import PyRaise, ArbitraryException
+    st = interp.st
+    environment, os_services, atc_input, output = args
+    if isinstance(output, fsmodel.SOpt):
+        output = interp.resolve(output)
+    st.emit('atc-execute', output)
+    if isinstance(output, StdOutputFiles):
+        for f, text in ((output.out, 'atc.stdout'), (output.err, 'atc.stderr')):
+            fsmodel._write(interp, f, Str.make(interp, text))
+    if st.choose(2) == 1:
+        st.emit('atc-execute:raised')
+        raise PyRaise(ArbitraryException('the action to check raises'))
+    return EXIT_CODE_OR_HARD_ERROR.make(interp, 'atc.result')
+
+
+class AtcI(Interface):
+    methods = {'execute': Method(model=_m_atc_execute)}
+
+
+class AtcInputI(Interface):
+    methods = {'resolve': Method(returns=Any_), 'validate': Method(returns=Opt(Any_))}
+
+
+class TmpStorageI(Interface):
+    target_class = TmpFileStorage
+    attrs = {'paths_access': Any_}
+
+
+def _mk_atc_executor(interp, name):
+    sds = SDS.make(interp, name + '.sds')
+    fsmodel.declare_dir(interp, sds.result_dir._s)
+    env = interp.call(InstructionEnvironmentForPostSdsStep,
+                      [Any_.make(interp, name + '.hds'),
+                       Inst(ProcessExecutionSettings, _tuple=[Opt(Int), Opt(Any_)]).make(interp, name + '.pes'),
+                       sds,
+                       Iface(TmpStorageI).make(interp, name + '.tmp'),
+                       Any_.make(interp, name + '.symbols'),
+                       Int.make(interp, name + '.mem_buff_size')], {})
+    return interp.call(ActionToCheckExecutor,
+                       [Iface(AtcI).make(interp, name + '.atc'),
+                        env, env,
+                        Any_.make(interp, name + '.os_services'),
+                        Iface(AtcInputI).make(interp, name + '.atc_input'),
+                        Opt(Any_).make(interp, name + '.exe_atc_and_skip_assertions')], {})
+
+
+ATC_EXECUTOR = Custom(_mk_atc_executor)
+
+
+def opened(trace):
+    """(path, mode) of the files opened, in order"""
+    return [(e[1], e[2]) for e in trace if e[0] == 'open']
+
+
+def file_of(trace, path):
+    """the file object of the (single) `open` of path"""
+    return [e[3] for e in trace if e[0] == 'open' and e[1] == path][0]
+
+
+def written_to(trace, path):
+    """the texts written to the file opened as path, in order"""
+    return [e[2] for e in trace if e[0] == 'write' and e[1] is file_of(trace, path)]
+
+
+def closed_then_read_only(trace, path):
+    """the file is closed exactly once, afterwards made read-only, and nothing else happens to it later"""
+    f = file_of(trace, path)
+    tail = [e for e in trace if (e[0] in ('close', 'write') and e[1] is f) or (e[0] == 'chmod' and e[1] == path)]
+    return tail[-2:] == [('close', f), ('chmod', path, 0o444)] \
+        and len([e for e in tail if e[0] in ('close', 'chmod')]) == 2
+
+
+def closed(trace, path):
+    f = file_of(trace, path)
+    return len([e for e in trace if e[0] == 'close' and e[1] is f]) == 1 \
+        and [e for e in trace if (e[0] in ('close', 'write') and e[1] is f)][-1][0] == 'close'
+
+
+def same_object(a, b):
+    return a is b
+
+
+def _m_same_object(interp, args, kwargs):
+    a, b = [interp.resolve(x) if isinstance(x, fsmodel.SOpt) else x for x in args]
+    return a is b
+
+
+M.model(same_object, _m_same_object)
+
+
+def atc_runs(trace):
+    return [e for e in trace if e[0] == 'atc-execute']
+
+
+def result_file(self, name):
+    return str(self.tcds.sds.result_dir / name)
+
+
+def while_both_open(trace, self):
+    """the action runs after stdout and stderr have been opened and before anything is closed"""
+    kinds = [e[0] for e in trace if e[0] in ('open', 'close', 'atc-execute')]
+    return kinds[:3] == ['open', 'open', 'atc-execute']
+
+
+M.contract(P_ATC + ':ActionToCheckExecutor._do_execute',
+           params=dict(self=ATC_EXECUTOR), returns=EXIT_CODE_OR_HARD_ERROR,
+           requires=lambda self: is_dir(self.tcds.sds.result_dir),
+           old=lambda self: self._atc_outcome,
+           ensures={
+               # ---- not --act: result/ gets exactly stdout, stderr (and exit-code iff the action gave one)
+               'result-dir-holds-exactly-stdout-stderr-exitcode': (lambda self, result, trace:
+               self.exe_atc_and_skip_assertions is not None
+               or opened(trace) == [(result_file(self, 'stdout'), 'w'), (result_file(self, 'stderr'), 'w')]
+               + ([(result_file(self, 'exit-code'), 'w')] if result.is_exit_code else []), 'check-only'),
+               'the-action-writes-to-these-files': (lambda self, trace:
+               len(atc_runs(trace)) == 1 and (
+                   same_object(atc_runs(trace)[0][1], self.exe_atc_and_skip_assertions)
+                   if self.exe_atc_and_skip_assertions is not None
+                   else (atc_runs(trace)[0][1].out is file_of(trace, result_file(self, 'stdout'))
+                         and atc_runs(trace)[0][1].err is file_of(trace, result_file(self, 'stderr'))
+                         and while_both_open(trace, self))), 'check-only'),
+               'stdout-stderr-hold-the-actions-output-only': (lambda self, trace, ghost:
+               self.exe_atc_and_skip_assertions is not None
+               or (len(written_to(trace, result_file(self, 'stdout'))) == 1
+                   and len(written_to(trace, result_file(self, 'stderr'))) == 1), 'check-only'),
+               'exit-code-file-holds-the-exit-code': (lambda self, result, trace:
+               self.exe_atc_and_skip_assertions is not None or not result.is_exit_code
+               or written_to(trace, result_file(self, 'exit-code')) == [str(result.exit_code)], 'check-only'),
+               'files-closed-and-made-read-only': (lambda self, result, trace:
+               self.exe_atc_and_skip_assertions is not None
+               or (closed_then_read_only(trace, result_file(self, 'stdout'))
+                   and closed_then_read_only(trace, result_file(self, 'stderr'))
+                   and (not result.is_exit_code
+                        or closed_then_read_only(trace, result_file(self, 'exit-code')))), 'check-only'),
+               'with --act nothing is written to the sandbox': (lambda self, trace:
+               self.exe_atc_and_skip_assertions is None or events(trace, *FS_EVENTS) == [], 'check-only'),
+               'nothing-outside-result-is-touched': (lambda self, trace:
+               all(below(p, self.tcds.sds.result_dir) for p in fs_paths(trace)), 'check-only'),
+               # ---- the outcome object (C01 uses these two)
+               'outcome-registered-iff-exit-code': lambda self, result, old:
+               (self._atc_outcome is not None and self._atc_outcome.exit_code == result.exit_code)
+               if result.is_exit_code else self._atc_outcome is old,
+           },
+           raises={Exception: {'ensures': lambda self, trace:
+           events(trace, 'atc-execute:raised') != []
+           and (self.exe_atc_and_skip_assertions is not None
+                or (opened(trace) == [(result_file(self, 'stdout'), 'w'), (result_file(self, 'stderr'), 'w')]
+                    and closed(trace, result_file(self, 'stdout')) and closed(trace, result_file(self, 'stderr'))))}},
+           raises_only=())
+
+
+# ============================================================================ execution/phase_file_space.py
+# Exactly's own temporary files: every storage handed out lies strictly below the root the factory was given
+# (which _setup_post_sds_environment proves to be internal/tmp, never the user's tmp/).
+
+from exactly_lib.execution.phase_file_space import PhaseTmpFileSpaceFactory
+from exactly_lib.test_case import phase_identifier
+
+P_PFS = 'exactly_lib.execution.phase_file_space'
+FACTORY = Inst(PhaseTmpFileSpaceFactory, _root_dir=PATH)
+PHASE = OneOf(*phase_identifier.ALL)
+
+_STORAGE_CLAUSES = {
+    'strictly-below-the-root-it-was-given': lambda self, result: below(result.root_dir__may_not_exist, self._root_dir),
+    'file-space-is-rooted-at-that-directory': lambda result:
+    result.paths_access._root_dir_to_create_on_demand is result.root_dir__may_not_exist,
+    'nothing-is-created-yet': lambda trace: events(trace, *FS_EVENTS) == [],
+}
+
+for _name, _params in (('for_phase__validation', dict(self=FACTORY, phase=PHASE)),
+                       ('for_phase__main', dict(self=FACTORY, phase=PHASE)),
+                       ('instruction__validation', dict(self=FACTORY, phase=PHASE, instruction_number=Pos)),
+                       ('instruction__main', dict(self=FACTORY, phase=PHASE, instruction_number=Pos))):
+    M.contract('%s:PhaseTmpFileSpaceFactory.%s' % (P_PFS, _name), params=_params, inline=True,
+               ensures=dict(_STORAGE_CLAUSES), raises_only=())
+
+
+# ============================================================================ instruction environments
+
+M.contract(P_EXECUTOR + ':_PartialExecutor._post_sds_environment',
+           params=dict(self=EXECUTOR_POST_SDS, tmp_file_storage=Iface(TmpStorageI), symbols=Any_), inline=True,
+           ensures={
+               'carries-the-sandbox-and-the-given-tmp-storage': lambda self, tmp_file_storage, result:
+               result.sds is self._sds and result.tmp_dir__path_access is tmp_file_storage,
+               'environ-is-a-read-only-view-of-the-instruction-settings-environ': lambda self, result:
+               (result.proc_exe_settings.environ is None) if self._instruction_settings.environ() is None
+               else is_read_only_view_of(result.proc_exe_settings.environ, self._instruction_settings.environ()),
+               'timeout-is-the-current-setting': lambda self, result:
+               result.proc_exe_settings.timeout_in_seconds == self._instruction_settings.timeout_in_seconds(),
+               'no-effect-on-file-system-or-cwd': lambda trace: events(trace, 'chdir', *FS_EVENTS) == [],
+           },
+           raises_only=())
+
+# ============================================================================ execution/sandbox_dir_resolving.py
+
+P_SDR = 'exactly_lib.execution.sandbox_dir_resolving'
+
+
+def gives_a_new_empty_directory(resolver, prefix, trace):
+    """calling the resolver creates a new directory with tempfile.mkdtemp(prefix=prefix) and returns its name"""
+    n = len(trace)
+    d = resolver()
+    return trace[n:] == [('mkdtemp', d, prefix)] and is_dir(d)
+
+
+M.contract(P_SDR + ':mk_tmp_dir_with_prefix', params=dict(dir_name_prefix=Str), inline=True,
+           ensures={'nothing-is-created-before-it-is-called': lambda trace: trace == [],
+                    'every-call-of-the-result-makes-a-new-directory': lambda dir_name_prefix, result, trace:
+                    gives_a_new_empty_directory(result, dir_name_prefix, trace)
+                    and gives_a_new_empty_directory(result, dir_name_prefix, trace)
+                    and trace[0][1] != trace[1][1]},
+           raises_only=())
+M.trust('RootResolverI (the configured sds_root_dir_resolver) returns a new, empty directory: proved of the '
+        'production resolver mk_tmp_dir_with_prefix given the model of tempfile.mkdtemp; other resolvers are '
+        'configuration')
+
+# ============================================================================ processing/processors.py
+
+from exactly_lib.processing import processors
+
+P_PROC = 'exactly_lib.processing.processors'
+PROC_EXECUTOR = Inst(processors._Executor, default_act_phase_setup=Any_, _is_keep_sandbox=Bool, _exe_conf=EXE_CONF)
+
+
+def same_but_environ_and_symbols(a, b):
+    return (a.default_environ_getter is b.default_environ_getter and a.timeout_in_seconds == b.timeout_in_seconds
+            and a.os_services is b.os_services and a.sds_root_dir_resolver is b.sds_root_dir_resolver
+            and a.mem_buff_size == b.mem_buff_size
+            and same_object(a.exe_atc_and_skip_assertions, b.exe_atc_and_skip_assertions))
+
+
+def symbol_copies(trace):
+    """(table, copy) of every SymbolTable.copy()"""
+    return [(e[1], trace[i + 1][2]) for i, e in enumerate(trace) if e[0] == 'symbols-copy']
+
+
+M.contract(P_PROC + ':_Executor._exe_conf_that_may_be_updated', params=dict(self=PROC_EXECUTOR), returns=EXE_CONF,
+           ensures={
+               'environ-is-a-fresh-copy': lambda self, result:
+               (result.environ is None) if self._exe_conf.environ is None
+               else is_fresh_copy(result.environ, self._exe_conf.environ),
+               'predefined-symbols-is-a-copy': (lambda self, result, trace:
+               symbol_copies(trace) == [(self._exe_conf.predefined_symbols, result.predefined_symbols)]
+               and result.predefined_symbols is not self._exe_conf.predefined_symbols, 'check-only'),
+               'everything-else-is-the-configured': lambda self, result:
+               same_but_environ_and_symbols(result, self._exe_conf),
+               'the-configuration-itself-is-not-changed': lambda self, result: result is not self._exe_conf,
+           },
+           raises_only=())
+
+
+# ============================================================================ frame over the whole package (syntactic)
+# "The environment variables and the current directory of the Exactly process are what they were before":
+# besides the contracts above this needs that NO other code writes os.environ or changes directory.  These are
+# syntactic obligations over every file of the CURRENT source tree.
+
+import pyvc
+
+_ENV_MUTATORS = ('update', 'pop', 'popitem', 'setdefault', 'clear', '__setitem__', '__delitem__')
+_OS_WRITERS = ('putenv', 'unsetenv')
+_CHDIR_NAMES = ('chdir', 'fchdir')
+
+
+def _package_files():
+    root = os.path.join(pyvc.REPO_SRC, 'exactly_lib')
+    for d, _, fs in sorted(os.walk(root)):
+        for f in sorted(fs):
+            if f.endswith('.py'):
+                yield os.path.join(d, f)
+
+
+class _Scan(ast.NodeVisitor):
+    """collects, per file: every use of os.environ with its syntactic context, every os.putenv/unsetenv,
+    every *.chdir / *.fchdir, suspicious imports from os, and the enclosing function of each"""
+
+    def __init__(self, rel):
+        self.rel = rel
+        self.scope = []
+        self.parents = []
+        self.os_names = {'os'}
+        self.environ_names = set()
+        self.environ_uses = []      # (where, context)
+        self.os_writers = []
+        self.chdirs = []
+        self.bad_imports = []
+        self.attr_uses = {}         # attribute / name -> [(where, inside `with preserved_cwd()`)]
+
+    def where(self, node):
+        return '%s:%s' % (self.rel[:-3].replace(os.sep, '.'), '.'.join(self.scope) or '<module>')
+
+    def visit(self, node):
+        self.parents.append(node)
+        try:
+            return ast.NodeVisitor.visit(self, node)
+        finally:
+            self.parents.pop()
+
+    def _scoped(self, node):
+        self.scope.append(node.name)
+        self.generic_visit(node)
+        self.scope.pop()
+
+    visit_FunctionDef = visit_AsyncFunctionDef = visit_ClassDef = _scoped
+
+    def visit_Import(self, node):
+        for al in node.names:
+            if al.name == 'os' and al.asname:
+                self.os_names.add(al.asname)
+
+    def visit_ImportFrom(self, node):
+        if node.module == 'os':
+            for al in node.names:
+                if al.name == 'environ':
+                    self.environ_names.add(al.asname or al.name)
+                if al.name in _OS_WRITERS + _CHDIR_NAMES + ('*',):
+                    self.bad_imports.append((self.where(node), al.name))
+        if node.module == 'contextlib':
+            for al in node.names:
+                if al.name == 'chdir':
+                    self.bad_imports.append((self.where(node), 'contextlib.chdir'))
+
+    def _is_os(self, n):
+        return isinstance(n, ast.Name) and n.id in self.os_names
+
+    def _is_environ(self, n):
+        return (isinstance(n, ast.Attribute) and n.attr == 'environ' and self._is_os(n.value)) or \
+            (isinstance(n, ast.Name) and n.id in self.environ_names and isinstance(n.ctx, ast.Load))
+
+    def _in_preserved_cwd(self):
+        for p in self.parents:
+            if isinstance(p, ast.With):
+                for it in p.items:
+                    c = it.context_expr
+                    if isinstance(c, ast.Call) and isinstance(c.func, ast.Name) and c.func.id == 'preserved_cwd':
+                        return True
+        return False
+
+    def generic_visit(self, node):
+        if self._is_environ(node):
+            parent = self.parents[-2] if len(self.parents) > 1 else None
+            if isinstance(parent, ast.Call) and isinstance(parent.func, ast.Name) and parent.func.id == 'dict' \
+                    and parent.args == [node] and not parent.keywords:
+                ctx = 'dict(os.environ)'
+            elif isinstance(parent, ast.Attribute) and parent.attr in ('get', 'copy', 'keys', 'values', 'items'):
+                ctx = 'read:' + parent.attr
+            else:
+                ctx = 'OTHER:' + type(parent).__name__ + (':' + parent.attr if isinstance(parent, ast.Attribute)
+                                                          else '')
+            self.environ_uses.append((self.where(node), ctx))
+        if isinstance(node, ast.Attribute):
+            if node.attr in _OS_WRITERS and self._is_os(node.value):
+                self.os_writers.append((self.where(node), node.attr))
+            if node.attr in _CHDIR_NAMES:
+                self.chdirs.append(self.where(node))
+            self.attr_uses.setdefault(node.attr, []).append((self.where(node), self._in_preserved_cwd()))
+        if isinstance(node, ast.Name) and isinstance(node.ctx, ast.Load):
+            self.attr_uses.setdefault(node.id, []).append((self.where(node), self._in_preserved_cwd()))
+        ast.NodeVisitor.generic_visit(self, node)
+
+
+def _scan_package():
+    scans = []
+    base = pyvc.REPO_SRC + os.sep
+    for fn in _package_files():
+        with open(fn, encoding='utf-8') as f:
+            tree = ast.parse(f.read(), fn)
+        sc = _Scan(fn[len(base):])
+        sc.visit(tree)
+        scans.append(sc)
+    return scans
+
+
+CHDIR_CALL_SITES = {
+    'exactly_lib.util.file_utils.misc_utils:preserved_cwd',
+    'exactly_lib.execution.partial_execution.impl.executor:_PartialExecutor._set_cwd_to_act_dir',
+    'exactly_lib.impls.instructions.multi_phase.change_dir:InstructionEmbryo.custom_main',
+}
+
+
+@M.check('frame: os.environ is never written, chdir call sites are the known ones')
+def _frame(ctx):
+    scans = _scan_package()
+    ctx.obligation('the package has source files to scan', len(scans) > 100, 'scan', detail={'files': len(scans)})
+    uses = [u for sc in scans for u in sc.environ_uses]
+    bad = [u for u in uses if u[1].startswith('OTHER')]
+    ctx.obligation('every use of os.environ is a read into a new dict (dict(os.environ)) or a plain read',
+                   not bad, 'scan', detail={'uses': uses, 'offending': bad})
+    writers = [w for sc in scans for w in sc.os_writers]
+    ctx.obligation('no call of os.putenv / os.unsetenv', not writers, 'scan', detail={'offending': writers})
+    imports = [w for sc in scans for w in sc.bad_imports]
+    ctx.obligation('no `from os import putenv/unsetenv/chdir/fchdir/*`, no contextlib.chdir', not imports, 'scan',
+                   detail={'offending': imports})
+    chdirs = sorted({c for sc in scans for c in sc.chdirs})
+    ctx.obligation('the call sites of chdir are exactly preserved_cwd, _set_cwd_to_act_dir and the cd instruction',
+                   set(chdirs) == CHDIR_CALL_SITES, 'scan',
+                   detail={'found': chdirs, 'new': sorted(set(chdirs) - CHDIR_CALL_SITES),
+                           'missing': sorted(CHDIR_CALL_SITES - set(chdirs))})
+
+    # the chain that puts every chdir of the executor inside the dynamic extent of preserved_cwd
+    def users(name):
+        return sorted({w for sc in scans for (w, _) in sc.attr_uses.get(name, [])})
+
+    px = 'exactly_lib.execution.partial_execution.impl.executor:'
+    ctx.obligation('_set_cwd_to_act_dir is used only by _setup_post_sds_environment',
+                   users('_set_cwd_to_act_dir') == [px + '_PartialExecutor._setup_post_sds_environment'], 'scan',
+                   detail={'users': users('_set_cwd_to_act_dir')})
+    ctx.obligation('_setup_post_sds_environment is used only by _PartialExecutor.execute',
+                   users('_setup_post_sds_environment') == [px + '_PartialExecutor.execute'], 'scan',
+                   detail={'users': users('_setup_post_sds_environment')})
+    ctx.obligation('_PartialExecutor is instantiated only by executor.execute',
+                   users('_PartialExecutor') == [px + 'execute'], 'scan', detail={'users': users('_PartialExecutor')})
+    exe_uses = [(w, inside) for sc in scans if sc.rel.endswith(os.path.join('partial_execution', 'execution.py'))
+                for (w, inside) in sc.attr_uses.get('execute', [])]
+    ctx.obligation('partial_execution.execution.execute calls executor.execute inside `with preserved_cwd()`',
+                   exe_uses == [('exactly_lib.execution.partial_execution.execution:execute', True)], 'scan',
+                   detail={'uses': exe_uses})
+
+
+@M.check('path-model')
+def _path_model(ctx):
+    """the join of the ghost path model against pathlib, on the names the code under contract joins"""
+    names = [sds_module.SUB_DIRECTORY__ACT, sds_module.SUB_DIRECTORY__TMP_USER, sds_module.SUB_DIRECTORY__RESULT,
+             sds_module.SUB_DIRECTORY__INTERNAL, sds_module.SUB_DIRECTORY__TMP_INTERNAL, sds_module.SUB_DIRECTORY__LOG,
+             sds_module.RESULT_FILE__STDOUT, sds_module.RESULT_FILE__STDERR, sds_module.RESULT_FILE__EXITCODE,
+             PhaseTmpFileSpaceFactory.VALIDATION_SUB_DIR] \
+        + [str(p) for p in sds_module.SDS_SUB_DIRECTORIES.values()] \
+        + [phase_file_space._phase_dir(p) for p in phase_identifier.ALL] \
+        + [str(n).zfill(3) for n in (1, 7, 42, 999, 1000)]
+    bad = fsmodel.crosscheck(names)
+    ctx.obligation('p / name == str(p) + "/" + name for the names joined by the code under contract', not bad,
+                   'enumeration', detail={'names': names, 'disagreements': bad})
+    ctx.obligation('the documented names: act, tmp, result, internal/{tmp,log}, stdout, stderr, exit-code',
+                   (sds_module.SUB_DIRECTORY__ACT, sds_module.SUB_DIRECTORY__TMP_USER,
+                    sds_module.SUB_DIRECTORY__RESULT, sds_module.SUB_DIRECTORY__INTERNAL,
+                    sds_module.SUB_DIRECTORY__TMP_INTERNAL, sds_module.SUB_DIRECTORY__LOG,
+                    sds_module.RESULT_FILE__STDOUT, sds_module.RESULT_FILE__STDERR, sds_module.RESULT_FILE__EXITCODE)
+                   == ('act', 'tmp', 'result', 'internal', 'tmp', 'log', 'stdout', 'stderr', 'exit-code'),
+                   'enumeration')
